@@ -583,15 +583,14 @@ func Until(t time.Time) time.Duration { return t.Sub(Now()) }
 //
 //go:norace
 func Sleep(d time.Duration) {
-	if SimNow == 0 {
-		time.Sleep(d)
-		return
+	if SimNow == 0 || SleepFunc == nil || !SleepFunc(d) {
+		time.Sleep(d) // no simulation, or a goroutine the simulator does not own: the real clock
 	}
-	if d > 0 {
-		SimNow += int64(d)
-	}
-	Waiting()
 }
+
+// SleepFunc is installed by the harness: it lets simulated time pass for the simulated task that calls it and
+// reports false for any other goroutine.
+var SleepFunc func(d time.Duration) bool
 
 // OnceKey identifies the sync.Once behind the receiver of a wrapped x.Do(f) statement (0: not a sync.Once
 // that can be identified; such statements share one gate).
